@@ -446,6 +446,12 @@ class DiscriminatedUnionUnpackerBuilder(AbstractUnpackerBuilder):
                     )
         else:
             with lines.indent(f"for variant in {variants}:"):
+                if spec.builder.is_nailed:
+                    # a variant must not use the method inherited from
+                    # an already compiled parent class
+                    self._add_build_variant_unpacker(
+                        spec, lines, variant_method_name, variant_method_call
+                    )
                 with lines.indent("try:"):
                     if spec.builder.is_nailed:
                         lines.append(f"return variant.{variant_method_call}")
